@@ -288,7 +288,11 @@ def check_compact(R, ureg, m, units, q, r, helper, col):
     if len(src) == 1 and list(src.values()) == [1]:
         base_mag = float(q.to(ureg.UnitsContainer({k: (float(v) if Fraction(v).denominator != 1 else int(v)) for k, v in src.items()})).magnitude.nominal_value
                          if hasattr(q.magnitude, "nominal_value") else q.to(ureg.UnitsContainer({k: int(v) for k, v in src.items()})).magnitude)
-        if base_mag and math.isfinite(base_mag):
+        if base_mag and math.isfinite(base_mag) and float(rm):
+            # compacting only moves the decimal point: prefix-free magnitude / compact magnitude is a power of ten
+            lg = math.log10(abs(base_mag) / abs(float(rm)))
+            if abs(lg - round(lg)) > 1e-9:
+                raise Violation("compact_factor_not_a_power_of_ten", f"to_compact on {m!r} {units}: {rm!r} {dict(r._units)}; prefix-free magnitude {base_mag!r}, ratio 10**{lg!r}")
             k3 = math.floor(math.log10(abs(base_mag)) / 3) * 3
             frac = math.log10(abs(base_mag)) / 3
             near_boundary = abs(frac - round(frac)) < 1e-9
@@ -366,7 +370,35 @@ def case_special(case, col=None):
         raise Violation(f"helper_raised:compact:{exc_class(r)}", f"{u}: {r!r}")
 
 
+def case_named_prefixed_compact(case, col=None):
+    """to_compact builds its target as prefix name + unit name; where the definitions also contain a unit of exactly that name
+    (milliarcsecond, kilometer_per_second, ...) the result is still the input with the decimal point moved"""
+    R = env.R()
+    ureg = env.ureg("float")
+    n, p, u = case["name"], case["prefix"], case["unit"]
+    pval = float(R.prefixes[p].value)
+    x = 5.0 * pval
+    if col is not None:
+        col.case(("npc", n), True, sample=case, cls="named_prefixed")
+    s, r = attempt(lambda: ureg.Quantity(x, u).to_compact())
+    if s == "err":
+        raise Violation(f"helper_raised:compact:{exc_class(r)}", f"Q({x},{u!r}).to_compact(): {r!r}")
+    back = r.to(u).magnitude
+    if abs(back - x) > 1e-9 * abs(x):
+        raise Violation("helper_changed_value:compact:float", f"Q({x},{u!r}).to_compact() = {r!r} = {back} {u}")
+    lg = math.log10(abs(x) / abs(float(r.magnitude)))
+    if abs(lg - round(lg)) > 1e-9:
+        raise Violation("compact_factor_not_a_power_of_ten", f"Q({x},{u!r}).to_compact() = {r.magnitude!r} {dict(r._units)}: not the input with the decimal point moved (ratio 10**{lg!r})")
+
+
 def run_special(task, tier, seed, col):
+    R_ = env.R()
+    for n_ in R_.units:
+        for p_, u_ in R_.readings(n_):
+            if p_ and u_ in R_.units and u_ != n_ and R_.units[u_].kind not in ("offset", "log"):
+                lg_ = math.log10(float(R_.prefixes[p_].value))
+                if abs(lg_ - round(lg_)) < 1e-12 and round(lg_) % 3 == 0:
+                    col.run_case(lambda c: case_named_prefixed_compact(c, col), {"name": n_, "prefix": p_, "unit": u_})
     R = env.R()
     # every defined name that has a second reading as prefix+unit or plural
     amb = [n for n in R.units if len(R.readings(n)) > 1]
@@ -380,4 +412,6 @@ def run_task(task, tier, seed, col):
 
 
 def replay(sub, case):
+    if sub == "special" and "prefix" in case:
+        return case_named_prefixed_compact(case)
     return {"helpers": case_helper, "auto": case_auto, "special": case_special}[sub](case)
